@@ -195,8 +195,11 @@ def check(ctx):
     fix_guards(ctx)
     fix_structure(ctx)
     consumers(ctx)
-    from ..rules import indexspace
+    from ..rules import indexspace, shapes
+    shapes.check_sentinel_truthiness(ctx, [f for f in ctx.prog.all_functions() if f.module.name.startswith(
+        'adsg_core.optimization.hierarchy') or f.module.name.endswith('graph_processor')])
     indexspace.check_index_spaces(ctx, [f'{GP}.get_graph', f'{GP}._update_comb_fixed_mask'])
+    indexspace.check_translation(ctx)
     invalidate.check_invalidation(ctx, GP)
     invalidate.check_unconditional_recompute(ctx, f'{GP}._update_comb_fixed_mask', '_comb_fixed_mask')
     roots = [ctx.fn(f'{GP}.{r}') for r in ('fix_des_var', 'free_des_var', 'get_graph')]
